@@ -263,7 +263,7 @@ def run(chk):
                 if f == "stream.obs":
                     corpus_obs.append(("corpus:" + name, open(os.path.join(r, f), "rb").read()))
     cases += corpus_obs
-    nbase = chk.budget(40, 300)
+    nbase = chk.budget(90, 500)
     for k in range(nbase):
         r = rng.fork("A%d" % k)
         th = L.gen_trace(r, models, small=(k % 3 == 0))
@@ -271,7 +271,7 @@ def run(chk):
         cases.append(("valid", obs))
         if len(obs) <= 160 and k % 3 == 0:
             cases += every_truncation(obs)
-        cases += mutate_obs(r, obs, chk.budget(40, 120))
+        cases += mutate_obs(r, obs, chk.budget(50, 120))
     # boundary family: one jumbo event with each hostile size field, alone / after an event / before an event
     plain = struct.pack("<B3sQ", 0, b"OB.", 5)
     for sz in JUMBO_SIZES:
@@ -374,8 +374,8 @@ def run(chk):
         # corpus first
         for name, d in L.load_corpus("C19"):
             jobs.append({"k": "corpus-" + name, "cls": "corpus:" + name, "copy_from": d})
-        nb = chk.budget(24, 200)
-        per = chk.budget(22, 60)
+        nb = chk.budget(60, 400)
+        per = chk.budget(30, 60)
         for k in range(nb):
             r = rng.fork("C%d" % k)
             th = L.gen_trace(r, models, small=(k % 4 == 0))
@@ -399,7 +399,7 @@ def run(chk):
         decl = declared_events(build)
         chk.coverage["declared_events"] = len(decl)
         req_all = {name: v for (_, name, v) in models}
-        stride = chk.budget(5, 1)
+        stride = chk.budget(3, 1)
         nsweep = 0
         for n, (mcv, isj, args) in enumerate(decl):
             r = rng.fork("D" + mcv)
@@ -425,11 +425,11 @@ def run(chk):
                 L.write_threads(d, job["threads"], obs_override=job.get("obs"), meta_override=job.get("meta"))
             files = L.files_of(d)
             res = {}
-            for tool, args, heap in (("ovnidump", [], True), ("ovnitop", [], True), ("ovniemu", [], True), ("ovnisort", ["-c"], True),
-                                     ("ovnisort", [], False)):
+            for tool, args, heap in (("ovnidump", [], True), ("ovnidump", ["-x"], True), ("ovnitop", [], True), ("ovniemu", [], True),
+                                     ("ovnisort", ["-c"], True), ("ovnisort", [], False)):
                 rc, out, err, bad = L.run_judged(asan, tool, args, d, heapbuf=heap, timeout=10)
                 # one "<clock>  MCV  <relpath>  ..." record per event (M, C, V or a printed string may hold a newline)
-                res[tool + ("-c" if args else "")] = (rc, out.count("  loom.n0/proc."), bad, err[-1800:] if bad else "")
+                res[tool + "".join(args)] = (rc, out.count("  loom.n0/proc."), bad, err[-1800:] if bad else "")
             shutil.rmtree(d, ignore_errors=True)
             return files, res
 
@@ -443,6 +443,13 @@ def run(chk):
                 ml.append("S %s 1 %s" % (which, b.hex() or "-"))
                 mj.append((job, res, b))
         mo = common.batch(oracle, ml, timeout=900) if (oracle and ml) else []
+        mo0 = common.batch(oracle, [l.replace(" 1 ", " 0 ", 1) for l in ml], timeout=900) if (oracle and ml) else []
+        for (job, res, b), m0 in zip(mj, mo0):
+            # ovniemu is a sorted consumer: whatever the model rejects, it must reject (exit 1, no "finished ok")
+            rc, nlines, bad, err = res["ovniemu"]
+            if not bad and m0.split(" ")[0] in ("err", "loaderr") and rc != 1:
+                corr_broken.append(("ovniemu", b.hex()[:200], "rc=%s" % rc, m0[:100]))
+            chk.count("ovniemu-vs-model:" + m0.split(" ")[0])
         for (job, res, b), m in zip(mj, mo):
             mv = m.split(" ")[0]
             rc, nlines, bad, err = res["ovnidump"]
@@ -462,20 +469,23 @@ def run(chk):
                 chk.count("tool:%s:%s" % (job["cls"].split(":")[0] + (":" + job["cls"].split(":")[1] if job["cls"].startswith(("obs:", "decl:")) else ""),
                                           "clean" if not bad else bad[0]))
                 if bad:
-                    key = "%s:%s:%s" % (tool.replace("-c", ""), bad[0], bad[1])
+                    # key = the defect (sanitizer kind + first frame in the repo's sources), not the tool that hit it;
+                    # hangs and signals carry no stack: keyed by tool
+                    base_tool = tool.replace("-c", "").replace("-x", "")
+                    key = "%s:%s" % (bad[0], bad[1]) if bad[0] == "sanitizer" else "%s:%s:%s" % (base_tool, bad[0], bad[1])
                     chk.violation(key, "%s on a %s trace: %s (%s), exit status/signal %s" % (tool, job["cls"], bad[0], bad[1], rc),
                                   {"tool": tool, "mutation": job["cls"] + ((" event " + job["mcv"]) if "mcv" in job else ""), "exit": rc, "files": files, "stderr_tail": err,
                                    "env": "OVNI_VERIF_HEAPBUF=1 ASAN_OPTIONS=detect_leaks=0:abort_on_error=0 (ASan+UBSan build of the working tree)",
                                    "how": "write the files (hex) under a trace directory with the same relative paths and run the tool on it"})
         chk.sample({"op": "tools on mutated trace", "mutation": jobs[-1]["cls"], "results": {t: (r[0], r[2]) for t, r in results[-1][1].items()}})
-        chk.coverage["tool_runs"] = 5 * len(jobs)
+        chk.coverage["tool_runs"] = 6 * len(jobs)
         chk.coverage["traces_validated_against_impl"] = len(jobs)
     finally:
         shutil.rmtree(wd, ignore_errors=True)
 
     if corr_broken:
         chk.coverage["correspondence_disagreements"] = [repr(x)[:300] for x in corr_broken[:10]]
-        if not chk.violations:
+        if True:
             chk.violation("broken-correspondence", "model and implementation disagree on %d inputs, none of which violates the property's spec" % len(corr_broken),
                           {"correspondence": "loader model vs real stream.c / emu_ev.c / ovnidump", "disagreements": [repr(x)[:400] for x in corr_broken[:20]]},
                           found_input=False)
